@@ -6,6 +6,7 @@ use serde::{de::DeserializeOwned, Serialize};
 use serde_json::Value;
 use std::collections::BTreeMap;
 
+pub mod c03;
 pub mod c04;
 pub mod c15;
 pub mod c18;
@@ -62,6 +63,10 @@ pub trait Prop {
 macro_rules! with_prop {
     ($id:expr, $P:ident => $body:expr) => {
         match $id {
+            "C03" => {
+                type $P = $crate::props::c03::C03;
+                Some($body)
+            }
             "C04" => {
                 type $P = $crate::props::c04::C04;
                 Some($body)
